@@ -92,9 +92,9 @@ fn boundary(ty: &str, extra: &Option<String>, lang: &str) -> Vec<String> {
         "DATE_TIME" => v(&["1/1/2021 at 11:30", "31/12/9999 at 23:59:59", "1/1/2021 at 25", "1/1/2021 at 24", "1/1/2021 at -1"]),
         "DURATION" => {
             if lang == "tr" {
-                v(&["1 gün", "0 saniye", "31 gün", "11 ay", "12 ay", "400 yıl", "100000000000000000000 gün", "9999999999 yıl", "9223372036854775807 saniye"])
+                v(&["1 gün", "0 saniye", "31 gün", "11 ay", "12 ay", "400 yıl", "100000000000000000000 gün", "9999999999 yıl", "9223372036854775807 saniye", "200000000 yıl", "9223372036854775 saniye"])
             } else {
-                v(&["1 day", "0 seconds", "31 days", "11 months", "12 months", "400 years", "100000000000000000000 days", "9999999999 years", "9223372036854775807 seconds", "300000000 years", "-5 days", "106751991167301 days", "15250284452472 weeks"])
+                v(&["1 day", "0 seconds", "31 days", "11 months", "12 months", "400 years", "100000000000000000000 days", "9999999999 years", "9223372036854775807 seconds", "300000000 years", "-5 days", "106751991167301 days", "15250284452472 weeks", "200000000 years", "9223372036854775 seconds", "106751991167 days"])
             }
         }
         "MONTH" => {
@@ -227,6 +227,23 @@ impl Prop for C01 {
             }
             let nd = dates.len();
             f.push(Family::new(
+                "binary-boundaries",
+                Mode::Full,
+                "every ordered pair of boundary values of every kind (the typed boundary sets of the rule-pattern family: numbers up to 10^20, percentages, money, dates incl. 1/1/1 and 31/12/9999, times, date-times, durations up to the largest representable one and negative ones, unit quantities) joined by each of + - * / and by juxtaposition, in English: returns normally",
+                move |ch| {
+                    let mut pool: Vec<String> = Vec::new();
+                    for ty in ["NUMBER", "PERCENT", "MONEY", "DATE", "TIME", "DATE_TIME", "DURATION", "DYNAMIC_TYPE"] {
+                        pool.extend(boundary(ty, &None, "en"));
+                    }
+                    pool.push("(0 seconds - 200000000 years)".into());
+                    pool.push("(0 seconds - 9223372036854775 seconds)".into());
+                    let a = ch.pick(&pool).clone();
+                    let b = ch.pick(&pool).clone();
+                    let op = *ch.pick(&[" + ", " - ", " * ", " / ", " "]);
+                    Some(simple("en", format!("{}{}{}", a, op, b)))
+                },
+            ));
+            f.push(Family::new(
                 "date-duration-grid",
                 Mode::Full,
                 &format!("{} dates of a leap and a non-leap year x (days, weeks, months, years) x N in 0..=40, 59, 60, 365, 366, 1000 x (+, -): returns normally", nd),
@@ -300,7 +317,7 @@ impl Prop for C01 {
                     let mremove = ch.choose_dev(2) == 1;
                     let mrounding = ch.choose_dev(2) == 0;
                     let tz = *ch.pick_dev(&[None, Some("CET"), Some("EST"), Some("GMT+5:30"), Some("NST")]);
-                    let cfg = Cfg { dec: Some(dec.into()), thou: Some(thou.into()), num: Some((digits, remove, rounding)), pct: Some((pdigits, remove, rounding)), money: Some((mremove, mrounding)), tz: tz.map(|s| s.to_string()) };
+                    let cfg = Cfg { dec: Some(dec.into()), thou: Some(thou.into()), num: Some((digits, remove, rounding)), pct: Some((pdigits, remove, rounding)), money: Some((mremove, mrounding)), tz: tz.map(|s| s.to_string()), ..Default::default() };
                     Some(Case { cfg, lang: "en".into(), now: None, text: text.into(), independent: false })
                 },
             ));
